@@ -131,6 +131,19 @@ PROPS = {
             "known": {"bin": "bastion", "run": "TestC10Known", "kind": "plain"},
         },
     },
+    "C13": {
+        "level": "exploration",
+        "level_text": "Feed cycles against a recording stub witness whose reported checkpoint changes between attempts: all 121 failure words of length <=4 over {get-latest, fetch-proof, update} enumerated, all (witness size, log size) pairs enumerated fault-free, never-clearing faults under a context deadline, unverifiable published checkpoints; the per-attempt argument/ordering contract is checked on the recorded calls. Generated (size, fork) cases run against the real witness through the in-package witnessAdapter.",
+        "level_note": "The exponential back-off uses the real clock (no hook added), so failing cases run as concurrent batches; deadlines are generous and only used for the 'stops when its context ends' clause.",
+        "technique": "exhaustive fault-sequence enumeration + property-based testing against a recording stub and the real witness (rapid)",
+        "assumptions": HIST_ASSUME,
+        "parts": {
+            "words": {"bin": "omni", "run": "TestC13Words", "kind": "plain", "shards": {"quick": 1, "thorough": 4}},
+            "never": {"bin": "omni", "run": "TestC13Never", "kind": "plain"},
+            "sizes": {"bin": "omni", "run": "TestC13Sizes", "kind": "plain"},
+            "real": {"bin": "omni", "run": "TestC13Real", "checks": {"quick": 2, "thorough": 12}, "shards": {"quick": 1, "thorough": 4}},
+        },
+    },
 }
 
 # properties not (yet) claimed: id -> reason
